@@ -188,6 +188,20 @@ func main() {
 			usage()
 		}
 		os.Exit(runCheck(pos[0], o))
+	case "funcs":
+		_, o := parseOpts(os.Args[2:])
+		os.Setenv("RVET_NO_NORMALIZE", "1")
+		w, err := LoadWorld(o.repo, nil, "quick", "")
+		if err != nil {
+			fmt.Fprintln(os.Stderr, err)
+			os.Exit(2)
+		}
+		fmt.Println("# functions of jamf/regatta on the reviewed tree (rvet funcs); a module function not listed here is a")
+		fmt.Println("# new helper: its calls are inlined into the callers before the rules run (checker/normalize.go)")
+		for _, k := range listFuncs(w.Mod) {
+			fmt.Println(k)
+		}
+		os.Exit(0)
 	case "list":
 		_, o := parseOpts(os.Args[2:])
 		os.Exit(runList(o))
@@ -230,7 +244,14 @@ func runCheck(id string, o opts) (code int) {
 	if err != nil {
 		return failClosed("cannot load /repo: " + err.Error())
 	}
+	theWorld = w
 	r := NewReport(id, w)
+	for _, n := range w.Notes {
+		fmt.Fprintln(os.Stderr, "note:", n)
+	}
+	if len(w.Notes) > 0 {
+		r.Info["loader_notes"] = w.Notes
+	}
 	func() {
 		defer func() {
 			if p := recover(); p != nil {
